@@ -369,7 +369,7 @@ theorem whole_exit_machine (c : Cfg) (tgt : Tgt → Option Nat) (retAddr : Nat) 
     (hchk : checkSeq c.code tgt a [.i .ret] = some b) (hrip : σ.rip = c.codeBase + a)
     (hrel : Rel0 retAddr σ s) (hret : BitVec.ofNat 64 retAddr ≠ c.retSentinel) (hretlt : retAddr < 2 ^ 64) :
     ∃ σ', stepsN c 1 σ = some σ' ∧ σ'.rip = retAddr ∧ σ'.get 0 = s.reg.getD 0 0 ∧ σ'.mem = σ.mem ∧
-      (σ'.get X86.RSP).toNat = s.mem.stack.base := by
+      (σ'.get X86.RSP).toNat = s.mem.stack.base ∧ σ'.log = σ.log ∧ σ'.misaligned = σ.misaligned := by
   obtain ⟨n, hdec, -⟩ := checkSeq_i c.code tgt a b .ret [] hchk
   have hbase := whole_stack_base_lt σ.mem s.mem hrel.mem
   have hrsp := hrel.rsp
@@ -380,7 +380,7 @@ theorem whole_exit_machine (c : Cfg) (tgt : Tgt → Option Nat) (retAddr : Nat) 
   have hv : leValue (leBytes retAddr 8) = retAddr := by
     rw [whole_leValue_leBytes]
     exact Nat.mod_eq_of_lt (by simpa using hretlt)
-  refine ⟨{ ({ σ with rip := c.codeBase + a + n } : St).set X86.RSP (σ.get X86.RSP + 8) with rip := retAddr }, ?_, rfl, ?_, rfl, ?_⟩
+  refine ⟨{ ({ σ with rip := c.codeBase + a + n } : St).set X86.RSP (σ.get X86.RSP + 8) with rip := retAddr }, ?_, rfl, ?_, rfl, ?_, rfl, rfl⟩
   · apply stepsN_one_at c σ _ a n .ret hrip hdec
     unfold X86.exec
     simp only [X86.pop]
